@@ -133,7 +133,7 @@ func lockRule(c *rt.Ctx, pkgs []string, table an.LockTable) {
 	}
 	var missing []string
 	for f := range table {
-		if !seenField[f] {
+		if !seenField[f] && !ls.SeenFields[f] {
 			missing = append(missing, f)
 		}
 	}
